@@ -95,6 +95,12 @@ def gen_case(rng):
         if rng.random() < 0.3:
             layers.append({"$repeat": ({"n": 4} if named else 4)})
         return chain_case(layers, env={}, tail=("outdocs",))
+    if r < 0.7:
+        # nested repeats sharing one template text (the model is the judge)
+        layers = [gen.nested_repeat_same_template(rng)]
+        if rng.random() < 0.25 and "$repeat" in layers[0]:
+            layers.append({"$repeat": rng.choice([1, 2, 4])})
+        return chain_case(layers, env={}, tail=("outdocs",))
     doc = gen.eval_doc(rng, W, depth=rng.randint(2, 3), nfeat=(1, 3))
     return chain_case([doc], env=gen.ENV, tail=("outdocs",))
 
